@@ -57,9 +57,10 @@ prop("C03", "exploration",
      "(b) synthetic layouts at small scope driven into CloneOutput::reorder_in_place directly: 1..8 chunk identities with sizes from {1,2,3,5,8}; the source is a sequence of 0..10 identities, "
      "the prior output a sequence of 0..11 identities or garbage blobs (indexed or not), hash length in {4,8,16,33,64}; afterwards exactly the chunks the output still asks for are fed. "
      "Oracle: no panic/error; output == source (file length too for regular files); nothing left missing; a chunk present in the prior output and needed by the source is never left to be fetched. "
+     "During the run (invariant monitor, props/preserve.rs): the ordered log of reads and writes on the output is replayed on a model of the file, and after every write each chunk that the scan found and the source still needs somewhere must survive -- an intact copy at one of its known locations, or read in full from an intact copy since the scan ended; (b) also calls the public planner (strip_chunks_already_in_place + reorder_ops) and executes its op list with a reference executor: bytes read from a place an earlier op overwrote must never be written anywhere, every destination must be one the source has, and afterwards every reusable identity is at all its destinations. "
      "Non-trivial: a non-empty prior output, at least one write and (b) at least one reusable identity; distinct: (a) trace hash + shape, (b) the layout itself.",
      {"quick": {"runs": 30000, "max_secs": 150}, "thorough": {"runs": 3000000, "max_secs": 1500}},
-     ["the during-run 'not destroyed before copied' clause is decided through its consequence: a destroyed reusable chunk is copied as garbage (in-place copies are not re-hashed) and shows in the final comparison"],
+     ["the during-run monitor is lenient where bita is free: any read that covers an intact copy counts as buffering, and 'buffered' is never taken back; scans with more than 200 000 chunk locations are not monitored (counted)"],
      exhaustive_note="family (b) is sampled, biased small; the evidence counts distinct layouts reached")
 prop("C06", "exploration",
      FAM + "Observed: every byte range requested from the archive (HTTP: the scripted server's log; local CLI: read(2) on the archive fd at the syscall seam; local library: reads of the archive SimFile). "
@@ -169,7 +170,7 @@ text("C01", "deterministic simulation: seeded search over blocking-pool schedule
 CLONE_NOTE = "Trusted: RefFormat decoder, reference chunker (scan of seeds / prior output), blake2; real: bitar + CLI modules + futures-util + clap; port: tokio::fs::File; stub: blocking pool, stdin, network, block device (regular file presented as S_IFBLK)."
 text("C02", "deterministic simulation: seeded search over seed sets, seed orders, pool schedules and read fragmentations of clone (CLI at the syscall seam, library on simulated files)",
      "Seeded exploration; every successful clone must equal the source. Sampling, not proof.", CLONE_NOTE)
-text("C03", "deterministic simulation: seeded search over prior output contents -- real chunking of edited files through --seed-output, and small-scope synthetic layouts driven into reorder_in_place on a simulated file with drawn read/write fragmentation",
+text("C03", "deterministic simulation: seeded search over prior output contents -- real chunking of edited files through --seed-output, and small-scope synthetic layouts driven into reorder_in_place on a simulated file with drawn read/write fragmentation; an invariant monitor replays every read and write of the output (no reusable chunk destroyed before it is copied or buffered), and the public planner's op lists are run by a reference executor",
      "Seeded exploration, dense at small scope (<= 8 identities, sizes {1,2,3,5,8}); found F2 before it was fixed. Sampling, not proof; the evidence counts distinct layouts.", CLONE_NOTE)
 text("C06", "deterministic simulation: observation of every archive read at the simulated server / syscall seam / simulated file, compared with a reference clone model",
      "Seeded exploration with an exact multiset oracle over archive bytes; found F3 (block devices re-download everything) before it was fixed. Sampling, not proof.", CLONE_NOTE)
